@@ -290,6 +290,14 @@ theorem failed_not_recorded (old : Store) (c : Bool) (pre post : List (T × Outc
         · cases hc
     | interrupt => right; left; exact ⟨u, List.mem_cons_self ..⟩
 
+/-- an interruption raised inside any teardown action comes after the flush: nothing the run recorded is lost -/
+theorem teardown_interrupt_keeps_flush (old mem : Store) (tdList : List T) (k : Nat) (hk : 1 ≤ k) :
+    persistedAfterFinish old mem tdList k = mem := by
+  unfold persistedAfterFinish finishSteps
+  cases k with
+  | zero => omega
+  | succ n => simp [List.take_succ_cons]
+
 /-! ## non-vacuity -/
 
 /-- a run that re-saves task 0, removes task 1 and is killed inside the final commit of dbm.dumb can lose part of
